@@ -1,6 +1,7 @@
 package main
 
 import (
+	"fmt"
 	"go/ast"
 	"go/parser"
 	"go/token"
@@ -116,10 +117,11 @@ func recvTypeName(e ast.Expr) string {
 }
 
 // checkComplete fails the run with an engine error (never a verdict) when the
-// call table and the source disagree: an exported function that is neither
-// called nor excluded with a reason, an exclusion that hides a text-consuming
+// call table and the source disagree: an exclusion that hides a text-consuming
 // signature without saying so, or a table / exclusion row for a function that
-// does not exist.
+// does not exist.  An exported function that the table does not know (added to
+// the tree after the table was written) is reported in the evidence as not
+// covered and makes the run non-exhaustive; it is not an error.
 func checkComplete(c *runlib.Ctx, repo string) {
 	funcs := listExported(repo)
 	inTable := map[string]bool{}
@@ -127,7 +129,7 @@ func checkComplete(c *runlib.Ctx, repo string) {
 		inTable[e.fn] = true
 	}
 
-	var problems []string
+	var problems, uncovered []string
 	seen := map[string]bool{}
 	nConsuming := 0
 	for _, f := range funcs {
@@ -148,7 +150,10 @@ func checkComplete(c *runlib.Ctx, repo string) {
 		case inTable[f.name]:
 			// Covered.
 		case !isExcluded:
-			problems = append(problems, f.name+"("+f.params+") is exported but neither in the call table nor excluded")
+			// A function that the tree under test has and the table does not
+			// know: it cannot be called, which limits the coverage of this
+			// run but says nothing about the rest of the table.
+			uncovered = append(uncovered, f.name+"("+f.params+")")
 		case ex.consuming != f.consuming:
 			problems = append(problems, f.name+"("+f.params+"): the exclusion list is wrong about whether it consumes "+
 				"text/bytes/net values")
@@ -170,6 +175,12 @@ func checkComplete(c *runlib.Ctx, repo string) {
 	if len(problems) > 0 {
 		sort.Strings(problems)
 		runlib.EngineErrorf("call table is out of date with %s:\n  %s", repo, strings.Join(problems, "\n  "))
+	}
+
+	if len(uncovered) > 0 && c.Shard == 0 {
+		c.Count("exported_functions_not_covered", int64(len(uncovered)))
+		c.NotExhaustive(fmt.Sprintf("%d exported function(s) of %s are neither in the call table nor excluded and are NOT covered: %s",
+			len(uncovered), repo, strings.Join(uncovered, "; ")))
 	}
 
 	if c.Shard == 0 {
